@@ -66,7 +66,10 @@ ASSUMPTIONS = [
     'cell named with (stored, recomputed), blame inside dep_graph descendants, unevaluable cells listed): workbooks '
     'whose precedents are reached only through whole-column / whole-row references (SUM(A:A), INDEX(1:1,2), '
     'SUM(A:B), other sheet), and formulas whose graph BUILD raises (missing sheet, range on a missing sheet, external '
-    'workbook) with formula precedents before / after / around the offending reference',
+    'workbook) with formula precedents before / after / around the offending reference; SEQUENCES of two '
+    'validate_calcs calls with the SAME output_addrs object in every form the API accepts (str, AddressCell, list / '
+    'tuple of str, list / tuple of AddressCell, nested list, generator): the argument is unchanged by a call and every '
+    'report equals the one obtained with a freshly built argument (an exhausted generator is not reused)',
     'cells that raise are not members of a range node (the order in which _process_gen_graph evaluates several new '
     'ranges is not modelled; it is only observable when one of them raises)',
     'a stored text that spells an error code is not generated (pycel holds error values as strings)',
@@ -80,7 +83,7 @@ ASSUMPTIONS = [
 TRUSTED = ['modelled, not verified: openpyxl reading the file (data_only values), networkx, the formula evaluator of '
            'pycel on the generated language (compared through the recomputed values of the report)']
 REQUIRED_BUCKETS = ['consistent', 'consistent:raising', 'pert:far', 'pert:near', 'pert:text', 'pert:logical',
-                    'pert:lognum', 'pert:error', 'pert:blank', 'fixed', 'oo:unbounded', 'oo:broken-build',
+                    'pert:lognum', 'pert:error', 'pert:blank', 'fixed', 'oo:unbounded', 'oo:broken-build', 'oo:sequence',
                     'mag:tiny', 'mag:unit', 'mag:large', 'mag:zero']
 EXHAUSTIVE = False
 EXPLANATION = ('theorems: generic model of validate_calcs over every workbook DAG / value type / formula semantics '
@@ -654,6 +657,7 @@ def cases(tier, rng):
     yield from fixed_cases(thorough)
     yield from oo_cases(thorough, rng)
     yield from mag_cases(thorough, rng)
+    yield from seq_cases(thorough, rng)
     n_wb = 150 if thorough else 22
     for k in range(n_wb):
         nodes = W.gen_workbook(rng, free_ranges=False)
@@ -774,6 +778,8 @@ def oo_stored(case):
 
 
 def oo_impl(case):
+    if case['oo'] == 'sequence':
+        return seq_impl(case)
     from pycel import ExcelCompiler
     from pycel.excelutil import AddressRange
     import contextlib
@@ -803,6 +809,9 @@ def oo_impl(case):
 
 def oo_oracles(r):
     case = r.case
+    if case['oo'] == 'sequence':
+        yield from seq_oracles(r)
+        return
     if not r.impl.startswith('O|'):
         yield case, f'validate_calcs raised: {r.impl}'
         return
@@ -915,3 +924,116 @@ def oo_cases(thorough, rng):
                     yield {'oo': 'broken-build', 'cells': cs2, 'const': {'Sheet1!E1': 7}, 'nostore': ['Sheet1!C1'],
                            'outs': outs, 'tree': 1, 'tol': None, 'pert': None,
                            'unev': ['Sheet1!E1', 'Sheet1!C1']}
+
+
+# ---------------------------------------------------------------------------------------------------------------
+# sequences (oracle-only): two validate_calcs calls with the SAME output_addrs object
+
+SEQ_FORMS = ['str', 'cell', 'list-str', 'tuple-str', 'list-cell', 'tuple-cell', 'nested', 'gen']
+
+
+def _seq_arg(form, outs):
+    from pycel.excelutil import AddressCell
+    if form == 'str':
+        return outs[0]
+    if form == 'cell':
+        return AddressCell(outs[0])
+    if form == 'list-str':
+        return list(outs)
+    if form == 'tuple-str':
+        return tuple(outs)
+    if form == 'list-cell':
+        return [AddressCell(a) for a in outs]
+    if form == 'tuple-cell':
+        return tuple(AddressCell(a) for a in outs)
+    if form == 'nested':
+        return [[a] for a in outs]
+    return (a for a in outs)
+
+
+def _seq_snapshot(arg):
+    import copy
+    return copy.deepcopy(arg) if isinstance(arg, (list, tuple)) else arg
+
+
+def _seq_report(rep):
+    ms = sorted(f'{a}={core.enc(m.original)}>{core.enc(m.calced)}' for a, m in rep.get('mismatch', {}).items())
+    xs = sorted(e[0] for lst in rep.get('exceptions', {}).values() for e in lst)
+    ns = sorted(e[0] for lst in rep.get('not-implemented', {}).values() for e in lst)
+    return ';'.join([' '.join(['M'] + ms), ' '.join(['X'] + xs), ' '.join(['N'] + ns)])
+
+
+def seq_impl(case):
+    """call 1 on the consistent file, call 2 with the same argument object on a fresh compiler of the altered file
+    ('fresh') or on the same compiler ('same'; then both calls are on the altered file); the reference run does the
+    same with a freshly built argument for every call"""
+    from pycel import ExcelCompiler
+    import contextlib
+    import io
+    good = dict(oo_stored(case))
+    bad = dict(good)
+    bad[case['pert'][0]] = W._py(case['pert'][2])
+    paths = {}
+    for name, cached in (('good', good), ('bad', bad)):
+        paths[name] = os.path.join(TMP, f'seq{os.getpid()}-{name}.xlsx')
+        xw.write_xlsx(paths[name], case['cells'], cached)
+    first = 'good' if case['second'] == 'fresh' else 'bad'
+
+    def run(shared):
+        arg = _seq_arg(case['form'], case['outs']) if shared else None
+        snap = _seq_snapshot(arg)
+        reps, same_arg = [], True
+        comp = ExcelCompiler(filename=paths[first])
+        for k in range(2):
+            if k == 1 and case['second'] == 'fresh':
+                comp = ExcelCompiler(filename=paths['bad'])
+            if shared and case['form'] == 'gen' and k == 1:
+                a = _seq_arg(case['form'], case['outs'])       # an exhausted generator is not reused
+            else:
+                a = arg if shared else _seq_arg(case['form'], case['outs'])
+            with contextlib.redirect_stdout(io.StringIO()):
+                reps.append(_seq_report(comp.validate_calcs(output_addrs=a, verify_tree=bool(case['tree']))))
+            if shared and isinstance(arg, (list, tuple)) and not (type(arg) is type(snap) and arg == snap):
+                same_arg = False
+        return reps, same_arg
+
+    reps, same_arg = run(True)
+    refs, _ = run(False)
+    return 'O|' + '|'.join([f'arg={int(same_arg)}'] + reps + refs)
+
+
+def seq_oracles(r):
+    case = r.case
+    if not r.impl.startswith('O|arg='):
+        yield case, f'validate_calcs raised: {r.impl}'
+        return
+    parts = r.impl[2:].split('|')
+    arg_ok, r1, r2, f1, f2 = parts[0] == 'arg=1', parts[1], parts[2], parts[3], parts[4]
+    what = f'output_addrs given as {case["form"]} {case["outs"]}'
+    if not arg_ok:
+        yield case, f'{what}: the caller\'s argument object was modified by validate_calcs'
+    if r1 != f1:
+        yield case, f'{what}: first report {r1} differs from the report with a freshly built argument {f1}'
+    if r2 != f2:
+        yield case, (f'{what}: second call with the SAME argument object reports {r2}, with a freshly built argument '
+                     f'{f2} (stored {case["pert"][0]} altered to {core.show(case["pert"][2])})')
+    if case['second'] == 'fresh' and (case['pert'][0] + '=') not in f2:
+        yield case, f'{what}: altered {case["pert"][0]} not named even with a fresh argument: {f2}'
+
+
+def seq_cases(thorough, rng):
+    books = [
+        ({'Sheet1!A1': 1, 'Sheet1!A2': 2, 'Sheet1!A3': '=A1+A2', 'Sheet1!B1': 5, 'Sheet1!C1': '=A3+B1',
+          'Sheet1!D1': '=C1*2'}, [['Sheet1!D1'], ['Sheet1!D1', 'Sheet1!C1']], 'Sheet1!A3'),
+        ({'Sheet1!A1': 3, 'Sheet1!B1': '=A1&"x"', 'Sheet1!C1': '=B1&"y"', 'Data!A1': '=Sheet1!A1+1'},
+         [['Sheet1!C1', 'Data!A1'], ['Sheet1!C1', 'Data!A1', 'Sheet1!B1']], 'Sheet1!B1'),
+    ]
+    for cells, outss, c in (books if thorough else books[:1] + [(books[1][0], books[1][1][:1], books[1][2])]):
+        for outs in outss:
+            for form in SEQ_FORMS:
+                for second in ('fresh', 'same'):
+                    base = {'oo': 'sequence', 'cells': cells, 'const': {}, 'nostore': [], 'outs': outs, 'tree': 1,
+                            'tol': None, 'unev': [], 'form': form, 'second': second}
+                    old = oo_stored(base)[c]
+                    v = core.enc(old + 1000) if isinstance(old, (int, float)) else core.enc_text('zz')
+                    yield dict(base, pert=[c, 'far', v])
